@@ -69,8 +69,16 @@ func defaultOutputCheck(o *op, got obs) error {
 		return failf("C07 repeated-output", "default-source %s returned %q, which %s returned before", opString(o), string(got.Str), prev)
 	}
 	seenDefault[key] = opString(o)
+	if why := sharedBytes(lastDefaultEntropy, e); why != "" {
+		return failf("C07 re-issued-bytes", "%s with the unswapped default source returned %q (entropy %x) right after an output with entropy %x: %s \u2014 bytes of the source used twice", opString(o), string(got.Str), e, lastDefaultEntropy, why)
+	}
+	lastDefaultEntropy = e
 	return nil
 }
+
+// lastDefaultEntropy: the entropy of the previous unswapped default-source output of this process
+// (consecutive outputs must not share bytes: a pooled source that re-issues its tail shows here)
+var lastDefaultEntropy []byte
 
 type sourceCase struct {
 	History []op `json:"history"` // non-swapping calls made before the probe
